@@ -149,3 +149,15 @@ package thrift_reflection
 //@   loop 8 invariant wfCVs() && namespaceMap != nil && fresh(namespaceMap) && forall k int :: 0 <= k && k < $i ==> inDom(namespaceMap, ast.Namespaces[k].Language)
 //@   loop 8 invariant forall l string :: inDom(namespaceMap, l) ==> exists k int :: 0 <= k && k < $i && ast.Namespaces[k].Language == l && namespaceMap[l] == ast.Namespaces[k].Name
 //@   loop 9 invariant wfCVs() && len(consts) == $i && forall k int :: 0 <= k && k < $i ==> consts[k] != nil && consts[k].Name == ast.Constants[k].Name
+
+// ---- descriptor queries used by the field-mask library (C14): assumed, they consult the global registry ----
+
+//@ func (td *TypeDescriptor) GetStructDescriptor() (*StructDescriptor, error)
+//@   trusted
+//@   ensures result1 == nil ==> result0 != nil
+//@ func (td *TypeDescriptor) IsList() bool
+//@   trusted
+//@   pure
+//@ func (td *TypeDescriptor) IsMap() bool
+//@   trusted
+//@   pure
